@@ -5,7 +5,7 @@
 #include "verif.h"
 #include META_TYPES
 #include "meta.h"
-const char *M_BLK; size_t M_LEN, M_KO, M_KE, M_VE, M_G, M_T, A_KE; int M_HASVAL;
+const char *M_BLK; size_t M_LEN, M_KO, M_KE, M_VE, M_T, A_KE; int M_HASVAL;
 #include META_ITER_INC
 #include META_CONT_INC
 
@@ -53,21 +53,16 @@ void h_length(void)
 void h_begin_end(void)
 {
     char *b = mk_block();
-    __CPROVER_assume(A_WF(b + 1) && b[0] == ':' && b[1] != ':' && b[1] != 0);
+    __CPROVER_assume(A_KEY_WF(1) && b[0] == ':' && b[1] != ':');
     struct Port port = { "x", b, NULL, NULL };
     struct MetaContainer mc = Port_meta(&port);
     __CPROVER_assert(mc.str_ptr == b + 1, "C17 Port::meta() strips exactly the leading ':'");
     struct MetaIterator it = MetaContainer_begin(&mc);
     __CPROVER_assert(it.title == b + 1, "C17 begin() is at the first key");
-    if(it.value != NULL) {
-        size_t vo = (size_t)(it.value - b);
-        __CPROVER_assert(__CPROVER_same_object(it.value, b) && vo >= 3 && vo <= A_KE + 2, "C17 begin(): a value lies behind the first key, inside the block");
-        __CPROVER_assert(b[vo - 1] == '=' && b[vo - 2] == 0, "C17 begin(): a value follows a NUL and an '='");
-        __CPROVER_assert(M_G < 1 || M_G >= vo - 2 || b[M_G] != 0, "C17 begin(): that NUL is the first one behind the key start (arbitrary offset M_G before it is not NUL)");
-    }
+    __CPROVER_assert(it.value == (b[A_KE + 1] == '=' ? b + A_KE + 2 : NULL), "C17 begin(): value of the first entry, NULL if it has none");
     struct MetaContainer raw = MetaContainer_make(b);
     struct MetaIterator it2 = MetaContainer_begin(&raw);
-    __CPROVER_assert(it2.title == b + 1, "C17 begin() of a container built from the metadata pointer itself strips the ':'");
+    __CPROVER_assert(it2.title == b + 1 && it2.value == it.value, "C17 begin() of a container built from the metadata pointer itself strips the ':'");
     struct MetaIterator e = MetaContainer_end(&mc);
     __CPROVER_assert(e.title == NULL && e.value == NULL && !MetaIterator_bool(&e) && MetaIterator_bool(&it), "C17 end() is the null iterator");
     struct Port nometa = { "x", NULL, NULL, NULL };
